@@ -18,15 +18,17 @@ type guardedField struct {
 	Mutex     string   // name of the mutex field (embedded: its type name)
 	Fields    []string // guarded fields
 	Why       string
+	// Except: functions (prog.FnName of the origin) whose accesses are not obligations, one reason each
+	Except map[string]string
 }
 
 var guardedFields = []guardedField{
-	{"pkg/cmap", "shard", "RWMutex", []string{"items"}, "sharded concurrent map"},
-	{"server/backend/pubsub", "Subscription", "mu", []string{"closed", "failureCount", "events!"}, "closed flag, failure counter, and every send/close on the events channel"},
-	{"server/backend/pubsub", "BatchPublisher", "mutex", []string{"events"}, "pending batch"},
-	{"pkg/locker", "Locker", "mu", []string{"locks"}, "named-lock table with reference counts"},
-	{"server/backend/database/mongo", "ChangeStore", "mu", []string{"ranges", "tree"}, "cached change ranges"},
-	{"pkg/document/presence/inner", "Map", "mu", []string{"presences"}, "presence map"},
+	{"pkg/cmap", "shard", "RWMutex", []string{"items"}, "sharded concurrent map", nil},
+	{"server/backend/pubsub", "Subscription", "mu", []string{"closed", "failureCount", "events!"}, "closed flag, failure counter, and every send/close on the events channel", nil},
+	{"server/backend/pubsub", "BatchPublisher", "mutex", []string{"events"}, "pending batch", nil},
+	{"pkg/locker", "Locker", "mu", []string{"locks"}, "named-lock table with reference counts", nil},
+	{"server/backend/database/mongo", "ChangeStore", "mu", []string{"ranges", "tree"}, "cached change ranges", nil},
+	{"pkg/document/presence/inner", "Map", "mu", []string{"presences"}, "presence map", nil},
 }
 
 type muOp struct {
@@ -156,9 +158,20 @@ func init() {
 	register(&Rule{ID: "L5", Min: 30, Text: "lockset for mutex-guarded state: every access to a guarded field (cmap shard items; Subscription.closed/failureCount and every send/close on its events channel; BatchPublisher.events; Locker.locks; ChangeStore ranges/tree; presence Map) happens at a point where the owning struct's mutex is held on every path — the write lock for writes — established by a dominating Lock/RLock on the same object with no release in between, or, for unexported helpers, by every caller; constructors (fresh objects) are exempt",
 		Run: func(x *Ctx) { locksetRun(x, guardedFields) }})
 
+	register(&Rule{ID: "L5.aux", Min: 20, Text: "lockset for the remaining mutex-guarded state the sync pipeline touches (the table was made by listing every struct of the production packages that carries a sync.Mutex/RWMutex and reading what each protects): the rate limiter's entry map and eviction list (pkg/limit.Limiter.mu — event webhooks are throttled through it from the push path), the cluster client pool's maps (cluster.ClientPool.mu — compaction and cache invalidation broadcast through it), the SDK's watch buffer (client.watchBuffer.mu: items, closed), and the SDK channel's actor (pkg/channel.Channel.actorMu) are accessed only with the owning mutex held on every path — the write lock for writes — by a dominating Lock/RLock on the same object or, for unexported helpers, by every caller; constructors are exempt, and so is Limiter.Close (shutdown). Not in the table, by reading: document.Document.mu serialises Update/ApplyChangePack/undo but the SDK document's accessors (Root, Marshal, Checkpoint, GarbageCollect …) are unlocked by design — the document is owned by one application goroutine plus the client's sync loop, which locks; membership.Manager, channel.Manager and trie use atomics for their shared state and the mutex for serialising writers only",
+		Run: func(x *Ctx) {
+			locksetRun(x, []guardedField{
+				{"pkg/limit", "Limiter", "mu", []string{"evictionList", "entries"}, "rate-limit buckets", map[string]string{
+					"(*pkg/limit.Limiter[K]).Close": "shutdown only: after the expiry loop has ended it reads the list's length to drain what is left (the draining itself, collectEntries, takes the lock); the backend calls it after the RPC server has stopped"}},
+				{"cluster", "ClientPool", "mu", []string{"clients", "counters"}, "cluster clients per address", nil},
+				{"client", "watchBuffer", "mu", []string{"items", "closed"}, "queue between watch producers and the delivering goroutine", nil},
+				{"pkg/channel", "Channel", "actorMu", []string{"actorID"}, "actor of the SDK channel", nil},
+			})
+		}})
+
 	register(&Rule{ID: "L5.client", Min: 4, Text: "one sync of an attachment at a time (client SDK): the sync state of a client.Attachment (changeEventReceived, lastSyncTime) is written only with Attachment.syncMu held in write mode and read with it held in some mode — Client.syncInternal builds the request from the document's checkpoint, sends it and applies the response inside that critical section, so holding the lock exclusively is what keeps two syncs of the same document from being built from the same checkpoint and both applied (a manual Sync next to the realtime loop); taken in read mode the second sync no longer waits",
 		Run: func(x *Ctx) {
-			locksetRun(x, []guardedField{{"client", "Attachment", "syncMu", []string{"changeEventReceived", "lastSyncTime"}, "sync state of one attachment"}})
+			locksetRun(x, []guardedField{{"client", "Attachment", "syncMu", []string{"changeEventReceived", "lastSyncTime"}, "sync state of one attachment", nil}})
 		}})
 }
 
@@ -187,6 +200,9 @@ func locksetRun(x *Ctx, table []guardedField) {
 					fnKey := prog.FnName(fn)
 					if o := fn.Origin(); o != nil && o != fn {
 						fnKey = prog.FnName(o)
+					}
+					if _, skip := g.Except[fnKey]; skip {
+						continue
 					}
 					acqs, rels := mutexOps(fn, g.Type, g.Mutex)
 					// closures run inside the parent's critical section only when called synchronously; analyse them on their own
@@ -355,7 +371,7 @@ func freshObject(v ssa.Value) bool {
 func init() {
 	register(&Rule{ID: "L7", Min: 10, Text: "reference-count protocol of the named-lock table (pkg/locker): in Lock/RLock/TryLock the waiter increment happens while the table mutex is held and the blocking acquisition of the named lock comes only after the table mutex was released (holding it across a blocking lock deadlocks every other key); in Unlock/RUnlock the named lock is released, the counter decremented, tested and the entry deleted — in that order, all inside the table's critical section, and the entry is deleted only on the edge where the count is zero (otherwise a goroutine about to wait would lock an entry that is no longer in the table, and two goroutines hold 'the same' lock)",
 		Run: func(x *Ctx) {
-			g := guardedField{"pkg/locker", "Locker", "mu", nil, ""}
+			g := guardedField{"pkg/locker", "Locker", "mu", nil, "", nil}
 			callNamed := func(fn *ssa.Function, recvType, name string) []ssa.CallInstruction {
 				var out []ssa.CallInstruction
 				for _, c := range prog.CallsIn(fn) {
@@ -523,7 +539,7 @@ func init() {
 	register(&Rule{ID: "L5.bg", Min: 5, Text: "shutdown protocol of the background runner: Background.Go reads the closing channel and registers the goroutine with the WaitGroup while holding wgMu for reading; Background.Close closes the channel while holding wgMu for writing, releases it, and only then waits — so no goroutine is added after Wait has started, and Wait is not called with the mutex held (a running task that starts another task would deadlock)",
 		Run: func(x *Ctx) {
 			bp := "server/backend/background"
-			g := guardedField{bp, "Background", "wgMu", nil, ""}
+			g := guardedField{bp, "Background", "wgMu", nil, "", nil}
 			goFn, closeFn := x.fn(bp+".(*Background).Go"), x.fn(bp+".(*Background).Close")
 			if goFn == nil || closeFn == nil {
 				return
